@@ -332,7 +332,7 @@ func mApply(s *mState, a []string) string {
 					return eNArg
 				}
 				f, err := strconv.ParseFloat(a[i+1], 64)
-				if err != nil {
+				if err != nil || math.IsNaN(f) {
 					return "~err:invalid argument '" + a[i+1] + "'"
 				}
 				hasEx, ex = true, f
@@ -515,7 +515,7 @@ func mApply(s *mState, a []string) string {
 			return eNArg
 		}
 		f, err := strconv.ParseFloat(a[3], 64)
-		if err != nil {
+		if err != nil || math.IsNaN(f) {
 			return "~err:invalid argument '" + a[3] + "'"
 		}
 		o := s.obj(a[1], a[2])
@@ -618,7 +618,7 @@ func mApply(s *mState, a []string) string {
 		rest := a[i:]
 		for j := 0; j+1 < len(rest); j++ {
 			if strings.ToLower(rest[j]) == "ex" {
-				if f, err := strconv.ParseFloat(rest[j+1], 64); err == nil {
+				if f, err := strconv.ParseFloat(rest[j+1], 64); err == nil && !math.IsNaN(f) {
 					if s.Timed && f < 0 {
 						f = 0
 					}
